@@ -19,19 +19,21 @@ Voc == <<
   IComment("    # SecRule ARGS \"@rx commented\" \\"),
   IComment(""),
   IComment("SecMarker \"END-932\""),
+  IComment("#SecRule ARGS \"@rx old1\" \\"),        \* a commented-out copy of a rule line
   IRule("932100", << Link("@rx ", "old1") >>),
   IRule("932100", << Link("@rx ", "old1"), Link("@rx ", "old2 x"), Link("!@rx ", "old3") >>),
   IRule("932101", << Link("@rx ", "a\\\"@rx b") >>),
   IRule("932110", << Link("!@rx ", "neg"), Link("@pm ", "w1 w2") >>),
   IRule("9321001", << Link("@rx ", "seven"), Link("@rx ", "seven2") >>),
   IRule("932120", << Link("@rx ", "x\\\" \\x5cy"), Link("@rx ", "") >>),
+  IRule("932140", << Link("@rx ", "old1") >>),        \* same SecRule line text as rule 932100
   IRule("932130", << Link("@rx ", "p1"), Link("@pm ", "w"), Link("@rx ", "p3"), Link("!@rx ", "p4") >>)
 >>
 
 \* generated regexes (the harness checks that `regex generate' really prints them)
 GPool == << "foo", "a\\\"b", "a\\\"@rx b", "x\\\" \\x5cy", "a$1b", "(?i)[ab]", "x y" >>
 
-Ids == {"932100", "932101", "932110", "932120", "932130", "932999"}
+Ids == {"932100", "932101", "932110", "932120", "932130", "932140", "932999"}
 Ks  == 0..3
 
 File1(crlf, fnl) == RFile([i \in 1..Len(items) |-> Voc[items[i]]], crlf, fnl)
@@ -66,7 +68,7 @@ Theorems == Theorem => Thm(File1(FALSE, TRUE))
 
 GSel(R, k) == GPool[((Len(items) * 3 + k * 5 + Len(R) + (IF R = "932101" THEN 1 ELSE 0)
                       + (IF R = "932110" THEN 2 ELSE 0) + (IF R = "932120" THEN 3 ELSE 0)
-                      + (IF R = "932130" THEN 4 ELSE 0)) % Len(GPool)) + 1]
+                      + (IF R = "932130" THEN 4 ELSE 0) + (IF R = "932140" THEN 5 ELSE 0)) % Len(GPool)) + 1]
 
 Case(f, R, k) ==
     LET G == GSel(R, k)
